@@ -3,6 +3,7 @@ package docs
 import (
 	"pgregory.net/rapid"
 
+	"verif/harness/jv"
 	"verif/harness/model"
 )
 
@@ -30,10 +31,34 @@ func AddDefaults(t *rapid.T, n *model.Node, p float64, o *Opts, allow func(prop 
 			}
 			oo.NoNulls = true
 			v, ok := Valid(t, c, &oo)
-			if !ok {
+			if !ok || !Float64Exact(v) {
+				// R2: schema numbers are exactly representable in float64
 				continue
 			}
 			c.Default = &v
 		}
 	})
+}
+
+// Float64Exact reports whether every number in v is exactly a float64 (R2 for
+// numbers that appear in a schema).
+func Float64Exact(v jv.V) bool {
+	switch v.K {
+	case jv.Num:
+		_, exact := jv.Rat(v.N).Float64()
+		return exact
+	case jv.Arr:
+		for _, e := range v.A {
+			if !Float64Exact(e) {
+				return false
+			}
+		}
+	case jv.Obj:
+		for _, kv := range v.O {
+			if !Float64Exact(kv.V) {
+				return false
+			}
+		}
+	}
+	return true
 }
